@@ -210,6 +210,8 @@ def run(args):
             theirs = other[str(idx)]["seeded"]
             xres["runs_compared"] += 1
             xres["seeded_events_compared"] += len(mine)
+            if other[str(idx)].get("fp") == tot["fps"].get(idx):
+                xres["fingerprints_equal"] += 1      # informational: whole event log, unseeded events included
             if mine != theirs:
                 site = "process"
                 for a, b in zip(mine, theirs):
